@@ -9,9 +9,14 @@ import Sqfs.Model.ReaderTables
 namespace Sqfs.ReaderEnv
 open Sqfs.ReaderBounds Sqfs.ReaderTables
 
-abbrev Image := ByteArray
+/-- a file of `size` bytes: `data`, then zeroes (`imgz` line: a sparse file; for `img` lines `size = data.size`) -/
+structure Image where
+  data : ByteArray
+  size : Nat
 
-def byteAt (im : Image) (i : Nat) : UInt8 := if h : i < im.size then im[i] else 0
+instance : Inhabited Image := ⟨⟨ByteArray.empty, 0⟩⟩
+
+def byteAt (im : Image) (i : Nat) : UInt8 := if h : i < im.data.size then im.data[i] else 0
 def le16 (im : Image) (i : Nat) : UInt16 := (byteAt im i).toUInt16 ||| ((byteAt im (i + 1)).toUInt16 <<< 8)
 def le32 (im : Image) (i : Nat) : UInt32 :=
   (byteAt im i).toUInt32 ||| ((byteAt im (i + 1)).toUInt32 <<< 8) ||| ((byteAt im (i + 2)).toUInt32 <<< 16) |||
